@@ -38,13 +38,13 @@ class Duck:
     }
 
     def child_by_field_name(self, name):
-        spec = self._FIELDS.get(str(self.type), {})
-        if name not in spec:
-            return None
-        kinds = spec[name]
-        if kinds is None:
+        # `self.type == ...` also works for symbolic kinds (the comparison forks the path)
+        if name == "field" and self.type == "field_expression":
+            return self.children[-1] if len(self.children) > 1 else None      # positional: value . field
+        if name == "value" and self.type == "field_expression":
             return self.children[0] if self.children else None
-        for c in self.children:
-            if str(c.type) in kinds:
-                return c
+        if name == "function" and self.type == "call_expression":
+            for c in self.children:
+                if c.type == "field_expression" or c.type == "identifier" or c.type == "scoped_identifier":
+                    return c
         return None
